@@ -206,7 +206,17 @@ def register(kernel):
            stmt="run_skel GEN inj sched start epochs nb stop0 ver0 = fit inj sched start epochs nb stop0 ver0",
            gen_args="", model="", model_name="Protocol.fit (through Skeleton.run_skel: the extracted control skeleton, interpreted, is the protocol machine)",
            imports=["Protocol", "Skeleton"], cor_imports=["SkeletonT", "ProtocolT"],
-           tactic="apply run_skel_of_eqb; vm_compute; reflexivity")
+           tactic="apply run_skel_of_eqb; vm_compute; reflexivity",
+           corollaries=[("runs_of_the_extracted_fit_skeleton_follow_the_event_grammar",
+                         "forall inj sched start epochs nb ver0, grammar start epochs nb (ctrace (run_skel GEN inj sched start epochs nb false ver0))",
+                         "intros; rewrite TIE; apply trace_grammar"),
+                        ("extracted_fit_skeleton_emits_nothing_when_the_flag_is_already_up",
+                         "forall inj sched start epochs nb ver0, run_skel GEN inj sched start epochs nb true ver0 = mkst [] true ver0",
+                         "intros; rewrite TIE; apply prestopped"),
+                        ("extracted_fit_skeleton_without_stop_request_runs_every_epoch_and_batch",
+                         "forall inj, (forall h, inj h = false) -> forall sched start epochs nb ver0, "
+                         "ctrace (run_skel GEN inj sched start epochs nb false ver0) = TrainStart :: all_epochs_vis nb start (num_epochs start epochs) ++ [TrainEnd]",
+                         "intros inj H sched start epochs nb ver0; rewrite TIE; apply no_stop_visible_trace; exact H")])
 
     # ------------------------------------------------------------------ C01 / C05: the row-wise formulas of the networks and states
     VT = "intros; cbv [GEN %s half two]; tie_vec_norm; tie_vec_close"
